@@ -58,6 +58,8 @@ def after(ctx, rng, desc):
     # coprocessor access control: mostly denying, so that the UNDEFINED outcome is what gets compared
     r.cpacr.value = sum(rng.choice([0, 0, 1, 3]) << (2 * c) for c in range(14))
     r.nsacr.value = (r.nsacr.value & ~0x3FFF) | rng.getrandbits(14)
+    if rng.random() < 0.3:
+        r.nsacr.value |= 1 << 19           # NSACR.RFR: FIQ mode reserved for Secure state
     if ctx.cfg['have_virt_ext']:
         r.hcptr.value = rng.getrandbits(14) if rng.random() < 0.5 else 0
         # Hyp trap controls of the hint / monitor-call instructions
